@@ -6,20 +6,21 @@ from vf import universe as U
 from vf import universe_b  # noqa: F401  (registers group B zones)
 from vf.prng import mix
 
-GROUP_B = ("Z5", "Z6")
+GROUP_B = ("Z5", "Z6", "Z7")
 
-QUICK = {"Z2": 24000, "Z3": 5000, "Z4": 5000, "Z5": 12000}
+QUICK = {"Z2": 24000, "Z3": 5000, "Z4": 5000, "Z5": 12000, "Z7": 4000}
 
 
-def plan_docs(tier, seed, complete=False, quick=None, zones=("Z1", "Z2", "Z3", "Z4", "Z5", "Z6"), z1_all=True, limit=None, check=None):
+def plan_docs(tier, seed, complete=False, quick=None, zones=("Z1", "Z2", "Z3", "Z4", "Z5", "Z6", "Z7"), z1_all=True, limit=None, check=None, force_b=False):
     quick = quick or QUICK
     items = []
     zinfo = {}
     for z in zones:
-        if z in GROUP_B and not group_b_active(check):
-            continue
-        if z not in GROUP_B and only_group_b():
-            continue
+        if not force_b:
+            if z in GROUP_B and not group_b_active(check):
+                continue
+            if z not in GROUP_B and only_group_b():
+                continue
         n = U.size(z)
         if limit and z in limit:
             n = min(n, limit[z])
@@ -63,6 +64,11 @@ def witness_item(k):
 def replay_item(rp):
     d = rp["detail"]
     return {"key": str(rp["case"]), "doc": d["doc"]}
+
+
+def hash_ab():
+    """Universe hash of checks whose single baseline spans both groups."""
+    return U.content_hash() + "+" + universe_b.content_hash()
 
 
 def structure_hash(tokens):
